@@ -31,8 +31,8 @@ CONSTANTS Accts,       \* all accounts (inbox providers, recipients, claimants, 
           VTypes,      \* types of the values saved at target paths
           IssueBT,     \* borrow types of storage capabilities
           AcctBT,      \* borrow types of account capabilities
-          Wants,       \* type arguments of borrow / check / get / claim / unpublish
-          GetWants     \* type arguments of the capabilities.get calls whose result is kept (subset of Wants)
+          Wants,       \* type arguments of borrow / check and of the get / borrow observations
+          GetWants     \* type arguments of the state-changing calls get / claim / unpublish (subset of Wants)
 
 Nil   == [nil |-> TRUE]      \* empty record-valued slot (a string sentinel cannot be compared with a record)
 NoneV == "none"              \* nothing stored at a path
@@ -192,6 +192,10 @@ Get(a, pp, w) ==
   /\ UNCHANGED <<store, ctrl, pids, nextId, pub, inbox>>
 
 \* ---------------------------------------------------------------- inbox
+\* unpublish<T> / claim<T> return the published capability as a Capability<T>: same account and ID; a
+\* published type that is not a subtype of T fails the call. Deliberate implementation behaviour: the
+\* upcast value keeps its referenced type and takes T's authorization (never more than was published).
+Typed(c, w) == [acct |-> c.acct, id |-> c.id, bt |-> [auth |-> w.auth, ty |-> c.bt.ty]]
 InboxPublish(a, n, to, c) ==
   /\ c \in caps
   /\ inbox' = [inbox EXCEPT ![a][n] = [to |-> to, cap |-> c]]         \* overwrites silently
@@ -203,7 +207,7 @@ InboxUnpublish(a, n, w) ==
   /\ IF e = Nil THEN Tick(l @@ [k |-> "nil", res |-> Nil, ev |-> NoEv]) /\ UNCHANGED inbox
      ELSE IF ~RefSub(e.cap.bt, w) THEN Tick(l @@ [k |-> "err", res |-> {"type"}, ev |-> NoEv]) /\ UNCHANGED inbox
      ELSE /\ inbox' = [inbox EXCEPT ![a][n] = Nil]
-          /\ Tick(l @@ [k |-> "ok", res |-> e.cap, ev |-> <<[e |-> "InboxUnpublished", a |-> a, n |-> n]>>])
+          /\ Tick(l @@ [k |-> "ok", res |-> Typed(e.cap, w), ev |-> <<[e |-> "InboxUnpublished", a |-> a, n |-> n]>>])
   /\ UNCHANGED <<store, ctrl, pids, nextId, pub, caps>>
 \* a claim returns only what `from` published for `me` under `n`
 InboxClaim(me, n, from, w) ==
@@ -211,7 +215,7 @@ InboxClaim(me, n, from, w) ==
   /\ IF e = Nil \/ e.to # me THEN Tick(l @@ [k |-> "nil", res |-> Nil, ev |-> NoEv]) /\ UNCHANGED inbox
      ELSE IF ~RefSub(e.cap.bt, w) THEN Tick(l @@ [k |-> "err", res |-> {"type"}, ev |-> NoEv]) /\ UNCHANGED inbox
      ELSE /\ inbox' = [inbox EXCEPT ![from][n] = Nil]
-          /\ Tick(l @@ [k |-> "ok", res |-> e.cap, ev |-> <<[e |-> "InboxClaimed", a |-> from, to |-> me, n |-> n]>>])
+          /\ Tick(l @@ [k |-> "ok", res |-> Typed(e.cap, w), ev |-> <<[e |-> "InboxClaimed", a |-> from, to |-> me, n |-> n]>>])
   /\ UNCHANGED <<store, ctrl, pids, nextId, pub, caps>>
 
 \* ---------------------------------------------------------------- next-state relations
@@ -230,8 +234,8 @@ MutNext ==
         \/ \E w \in GetWants : Get(a, pp, w)
   \/ \E a \in Accts, b \in Accts, n \in Names :
         \/ \E c \in caps : InboxPublish(a, n, b, c)
-        \/ \E w \in Wants : InboxClaim(a, n, b, w)
-  \/ \E a \in Accts, n \in Names, w \in Wants : InboxUnpublish(a, n, w)
+        \/ \E w \in GetWants : InboxClaim(a, n, b, w)
+  \/ \E a \in Accts, n \in Names, w \in GetWants : InboxUnpublish(a, n, w)
 \* calls that never change it
 ReadNext ==
   \/ \E a \in Accts, id \in 1..(MaxCtrl + 1), kd \in {"storage", "account"} : GetController(a, id, kd)
@@ -239,7 +243,7 @@ ReadNext ==
   \/ \E a \in Accts : AcctControllers(a)
   \/ \E c \in caps, w \in Wants : CapBorrow(c, w)
   \/ \E a \in Accts, pp \in PPaths : Exists(a, pp) \/ (\E w \in Wants : PubBorrow(a, pp, w))
-Next == MutNext \/ ReadNext
+Next == steps < MaxSteps /\ (MutNext \/ ReadNext)
 Spec == Init /\ [][Next]_vars
 
 \* ---------------------------------------------------------------- everything a later script can observe
@@ -289,7 +293,9 @@ ClaimOnlyByRecipient ==
   [][(last'.op = "inboxClaim" /\ last'.k = "ok") =>
         /\ inbox[last'.from][last'.n] # Nil
         /\ inbox[last'.from][last'.n].to = last'.me
-        /\ inbox[last'.from][last'.n].cap = last'.res
+        /\ inbox[last'.from][last'.n].cap.acct = last'.res.acct
+        /\ inbox[last'.from][last'.n].cap.id = last'.res.id
+        /\ RefSub(inbox[last'.from][last'.n].cap.bt, last'.res.bt)       \* never stronger than what was published
         /\ inbox'[last'.from][last'.n] = Nil]_vars
 \* a failing or nil-returning call changes nothing
 FailedChangesNothing ==
